@@ -128,7 +128,12 @@ def run(ch, config, res):
             if wl.flag("refused_first", 1, 6):
                 # an add the factory refuses (see simkit.editor.BAD_DEFS), on a name that is not in use
                 bconds_, bacts_, bmt_ = E.bad_definition(wl, "baddef")
-                rr = E.classify(lambda: (fs.addfilter("never-added", bconds_, bacts_, bmt_), True)[1])
+                bn = NAMES[wl.int("badname", len(NAMES))]
+                if find(bn) != -1 and wl.flag("refused_update", 1, 2):
+                    # ... or an update of an existing filter (same name) that is refused: the filter keeps its content
+                    rr = E.classify(lambda: fs.updatefilter(bn, bn, bconds_, bacts_, bmt_))
+                else:
+                    rr = E.classify(lambda: (fs.addfilter("never-added", bconds_, bacts_, bmt_), True)[1])
                 res.count("refused_builds")
                 if rr[0] == "ok":
                     res.count("ended:unsupported-description-accepted")
